@@ -57,7 +57,7 @@ def small(seed, **over):
 
 WIDE = dict(HfC={"h", "f"}, KindsC={"default", "first", "even"}, TextC={"plain", "meta", "cjk", "edge", "empty", "var"},
             ShowC={True, False}, FmtC=set(FMTS), AlignC=set(ALIGNS), CfgNilC={True}, PageC=PAGE_ALL,
-            ViaC={"mem", "file"}, RViaC={"doc", "legacy"}, DataC={"def", "undef"})
+            ViaC={"mem", "file", "word"}, RViaC={"doc", "legacy"}, DataC={"def", "undef"})
 
 
 def gencfg(ctx, name, ops, args, depth, last=()):
@@ -75,14 +75,17 @@ def plans(seed, q):
 
         # constructors of two kinds interleaved with what must not disturb them, deeper
         ("core", core, small(seed, KindsC={"default", "first"} if seed % 2 else {"even", "default"}, TextC={"var"}, FmtC={FMTS[2 + seed % 3]}), 3 if q else 4),
+        # header/footer calls on a document that went through a package with Word-style part names
+        ("foreign", ["AddHeader", "AddFooterWithPageNumber", "AddFormattedHeader", "Reopen", "ToBytes"],
+         small(seed, KindsC={"first", "default"}, TextC={"plain"}, ViaC={"word"}), 3 if q else 4),
     ]
     if not q:
         P += [
             # every constructor triple / same kind twice and thrice, headers and footers (pairs are part of "all")
             ("hf", HF6, small(seed, TextC={"plain"} if seed % 2 else {"var"}, FmtC={FMTS[seed % 2]}), 3),
-            ("hdr4", ["AddHeader", "AddHeaderWithPageNumber", "AddFormattedHeader"], small(seed, HfC={"h"}, TextC={"plain"}), 4),
+            ("hdr4", ["AddHeader", "AddHeaderWithPageNumber", "AddFormattedHeader"], small(seed, HfC={"h"}, TextC={"plain"}, FmtC={FMTS[seed % 2]}), 4),
             ("ftr4", ["AddFooter", "AddFooterWithPageNumber", "AddFormattedFooter", "Reopen"],
-             small(seed, HfC={"f"}, KindsC={"first", "even"}, TextC={"cjk"}, ViaC={"file"}), 4),
+             small(seed, HfC={"f"}, KindsC={"first", "even"}, TextC={"cjk"}, ViaC={"file"}, FmtC={FMTS[2 + seed % 3]}), 4),
             ("args", HF6, dict(WIDE, KindsC={"default"}, HfC={"h"}, TextC={"empty", "edge"}, FmtC={"nil", "ital", "neg"}, AlignC={"", "both"}), 2),
             ("survive", ["AddFooter", "AddFormattedHeader", "SetDifferentFirstPage", "Save", "Reopen", "Render", "AddListItem", "AddFootnote"],
              small(seed, KindsC={"first"}, TextC={"var"}, ViaC={"mem", "file"}, RViaC={"doc", "legacy"}, DataC={"def", "undef"}), 3),
@@ -134,7 +137,7 @@ def pipeline(ctx, cases_by=None):
         # seeded random long behaviours. -simulate evaluates every successor at every step, so each run samples from
         # argument pools narrowed by rotation (run k of seed s uses rotation s + k); together the runs cover the wide pools
         d = 10 if q else 20
-        for k in range(1 if q else 5):
+        for k in range(1 if q else 4):
             r = ctx.seed + k
             pools = dict(WIDE, FmtC={"nil", FMTS[r % 4]}, AlignC={"", ALIGNS[r % 4]}, TextC={"empty", "var", TEXTS[r % 4]},
                          PageC=set(sorted(PAGE_ALL)[r % 5::5]))
